@@ -125,6 +125,10 @@ func (s *Modifier) ModifyResponse(res *http.Response) error {
 	contentType := mime.TypeByExtension(filepath.Ext(fpth))
 	res.Header.Set("Content-Type", contentType)
 
+	// A Content-Range of the original response describes the body that is being
+	// replaced.
+	res.Header.Del("Content-Range")
+
 	// If no range request header is present, or it uses a unit other than
 	// bytes, return the file as the response body.
 	ranges, err := parseRange(res.Request.Header.Get("Range"), info.Size())
@@ -140,6 +144,10 @@ func (s *Modifier) ModifyResponse(res *http.Response) error {
 		return nil
 	}
 	if ranges == nil {
+		// A range status of the original response does not apply to the whole file.
+		if res.StatusCode == http.StatusPartialContent || res.StatusCode == http.StatusRequestedRangeNotSatisfiable {
+			res.StatusCode = http.StatusOK
+		}
 		res.ContentLength = info.Size()
 		res.Body = f
 
